@@ -204,6 +204,9 @@ def execute(sc):
             events = cells['events'].cell_contents
             lock = cells['event_making_lock'].cell_contents
             vals = [v.inv for v in list(cache_map.values()) if isinstance(v, Val)]
+            if ret == 'none' and not vals and len(cache_map):
+                # the cached result is None: it stands for the key's first successful invocation
+                vals = [first_ok[k] for k in first_ok]
             mk = list(events.values())
             return {'cache': vals[0] if vals else 0,
                     'mloop': getattr(mk[0][0], 'vname', '?') if mk else 'none',
